@@ -88,7 +88,7 @@ fn check(c: &Case, ctx: &Ctx) -> Outcome {
         must_ok(&build(ctx, &dir, "x", &samples, k, rc, 1), "ska build")?;
         // headers with descriptions; several records may share their first token (e.g. copies of one element)
         // (descriptions in the style assemblers write them, topology tag included)
-        let wnames: Vec<String> = (0..wrecs.len()).map(|i| if c.wrap % 2 == 1 { format!("IS{} copy{i} len={}", i / 3, wrecs[i].len()) } else if c.wrap % 3 == 2 { format!("{} length={} depth=1.00x circular=true", i + 1, wrecs[i].len()) } else { format!("r{i}") }).collect();
+        let wnames: Vec<String> = (0..wrecs.len()).map(|i| if c.wrap % 2 == 1 { format!("IS{} copy{i} len={}", i / 3, wrecs[i].len()) } else if c.wrap % 3 == 2 { format!("{} length={} depth=1.00x circular=true", i + 1, wrecs[i].len()) } else if (i + k) % 4 == 2 { ["ISAba1(+)", "tig12(circular)", "*plasmid", "=chr", "rep[1]", "a,b", "x<y>", "it's", "q\\1"][(i + wrecs.len()) % 9].to_string() } else { format!("r{i}") }).collect();
         // one weed file in nine has a record without a name (a bare '>'): ska may refuse such a file, but if it
         // takes it, that record's k-mers count like all the others
         let nameless = wrecs.len() >= 2 && (k / 2 + wrecs.len() + samples.len()) % 9 == 4;
